@@ -7,7 +7,7 @@
 From Coq Require Import List NArith Bool.
 From V.C10 Require Import Model.
 From V.Mgr Require Import DialShape DialShapeProofs Model Caps Ledger LedgerInv.
-From V.Tcp Require Model Proofs Theorems.
+From V.Tcp Require Model Proofs Theorems Variants VariantTheorems Once.
 Import ListNotations.
 Open Scope N_scope.
 
@@ -417,3 +417,322 @@ Example C05_tcp_history :
    [Tcp.Model.OEv (Tcp.Model.TPendingInbound 3)]; [Tcp.Model.ORet true];
    [Tcp.Model.OEv (Tcp.Model.TEstablished 3 7 true)]].
 Proof. exact Tcp.Theorems.history1_ok. Qed.
+
+
+(* ---- the same contract for each socket transport: TCP, WebSocket, QUIC (coq/Tcp/Variants.v,
+   VariantTheorems.v, Once.v) ----
+   tcp/mod.rs, websocket/mod.rs and quic/mod.rs keep the same books with the same poll_next; what differs
+   is the front end (which multiaddresses `dial` accepts, which addresses of an `open` become attempts,
+   the peer an attempt expects, whether `open` has an overall deadline). `tstep t` is the bookkeeping
+   model behind the front end of transport t; `treach t` its histories. *)
+
+(* refinement: every history of a transport (trait calls carrying real multiaddresses, judged by that transport's own parser; its own environment events) is a history of the bookkeeping model, so every C05_tcp_* theorem holds for it *)
+Theorem C05_tr_refines_model :
+  forall t s g,
+  Tcp.VariantTheorems.treach t s g -> Tcp.Theorems.reach s g.
+Proof. exact Tcp.VariantTheorems.treach_reach. Qed.
+Print Assumptions C05_tr_refines_model.
+
+(* ... whatever ids the owner uses *)
+Theorem C05_tr_refines_model_any_owner :
+  forall t s g,
+  Tcp.VariantTheorems.treachU t s g -> Tcp.Theorems.reachU s g.
+Proof. exact Tcp.VariantTheorems.treachU_reachU. Qed.
+Print Assumptions C05_tr_refines_model_any_owner.
+
+(* front end: dial(c, a) returns Ok exactly when the address parses for the transport (TCP: TcpAddress::multiaddr_to_socket_address; WebSocket: multiaddr_into_url, /p2p required; QUIC: get_socket_address and /p2p required) *)
+Theorem C05_tr_dial_result :
+  forall t s g c a,
+  Tcp.VariantTheorems.treachU t s g ->
+  snd (Tcp.Variants.tstep t s (Tcp.Variants.XDial c a)) = [Tcp.Model.ORet (match Tcp.Variants.expect_of t a with Some _ => true | None => false end)].
+Proof. exact Tcp.VariantTheorems.t_dial_result. Qed.
+Print Assumptions C05_tr_dial_result.
+
+(* front end: open never fails, whatever the addresses (an address that does not parse is an attempt that ends at once) *)
+Theorem C05_tr_open_result :
+  forall t s c l,
+  snd (Tcp.Variants.tstep t s (Tcp.Variants.XOpen c l)) = [Tcp.Model.ORet true].
+Proof. exact Tcp.VariantTheorems.t_open_result. Qed.
+Print Assumptions C05_tr_open_result.
+
+(* WebSocket: an address multiaddr_into_url accepts is also accepted by the socket-address parser that dial_peer runs next *)
+Theorem C05_ws_url_parse :
+  forall a p,
+  Tcp.Variants.ws_url a = Some p -> exists ho port, C10.Model.parse V.C10.Model.TWs a = Some (ho, port, Some p).
+Proof. exact Tcp.VariantTheorems.ws_url_parse. Qed.
+Print Assumptions C05_ws_url_parse.
+
+(* every address shape TransportManager::dial_address lets through to TCP is accepted by its dial, expecting the dialled peer *)
+Theorem C05_tcp_accepts_manager_shape :
+  forall a q,
+  Tcp.Variants.manager_tcp_shape a q -> Tcp.Variants.expect_of V.C10.Model.TTcp a = Some (Some q).
+Proof. exact Tcp.VariantTheorems.t_accepts_manager_tcp. Qed.
+Print Assumptions C05_tcp_accepts_manager_shape.
+
+(* ... to WebSocket *)
+Theorem C05_ws_accepts_manager_shape :
+  forall a q,
+  Tcp.Variants.manager_ws_shape a q -> Tcp.Variants.expect_of V.C10.Model.TWs a = Some (Some q).
+Proof. exact Tcp.VariantTheorems.t_accepts_manager_ws. Qed.
+Print Assumptions C05_ws_accepts_manager_shape.
+
+(* ... to QUIC *)
+Theorem C05_quic_accepts_manager_shape :
+  forall a q,
+  Tcp.Variants.manager_quic_shape a q -> Tcp.Variants.expect_of V.C10.Model.TQuic a = Some (Some q).
+Proof. exact Tcp.VariantTheorems.t_accepts_manager_quic. Qed.
+Print Assumptions C05_quic_accepts_manager_shape.
+
+(* dial by peer id: every address the address store keeps (`supported`) is accepted by the transport it is routed to (`route`), expecting the peer its /p2p names *)
+Theorem C05_tr_accepts_supported :
+  forall cfg a,
+  C10.Model.supported cfg a = true ->
+  exists q, last a (C10.Model.Other 0) = C10.Model.P2p q /\ Tcp.Variants.expect_of (C10.Model.route cfg a) a = Some (Some q).
+Proof. exact Tcp.VariantTheorems.t_accepts_supported. Qed.
+Print Assumptions C05_tr_accepts_supported.
+
+(* dial_address: what the manager model routes to TCP (coq/Mgr/DialShape.v) is accepted by TcpTransport::dial, and the peer the negotiation insists on is the one the manager recorded *)
+Theorem C05_tcp_dial_accepts_manager_addresses :
+  forall listen a q,
+  DialShape.dial_shape listen a = DialShape.SvTcp q -> Tcp.Variants.expect_of V.C10.Model.TTcp a = Some (Some q).
+Proof. exact Tcp.VariantTheorems.tcp_dial_accepts_manager_addresses. Qed.
+Print Assumptions C05_tcp_dial_accepts_manager_addresses.
+
+(* ... to WebSocket *)
+Theorem C05_ws_dial_accepts_manager_addresses :
+  forall listen a q,
+  DialShape.dial_shape listen a = DialShape.SvWs q -> Tcp.Variants.expect_of V.C10.Model.TWs a = Some (Some q).
+Proof. exact Tcp.VariantTheorems.ws_dial_accepts_manager_addresses. Qed.
+Print Assumptions C05_ws_dial_accepts_manager_addresses.
+
+(* (a) per transport: ConnectionOpened / OpenFailure only for an owed open, whatever ids the owner uses *)
+Theorem C05_tr_open_phase_owed :
+  forall t s g k o1 e o2,
+  Tcp.VariantTheorems.treachU t s g -> snd (Tcp.Variants.tstep t s k) = o1 ++ Tcp.Model.OEv e :: o2 ->
+  match e with
+  | Tcp.Model.TOpened c | Tcp.Model.TOpenFailure c =>
+      In c (Tcp.Model.g_open (fold_left Tcp.Model.gout o1 (Tcp.Model.gcall (Tcp.Variants.ev_of t k) (snd (Tcp.Variants.tstep t s k)) g)))
+  | _ => True
+  end.
+Proof. exact Tcp.VariantTheorems.t_open_phase_owed. Qed.
+Print Assumptions C05_tr_open_phase_owed.
+
+(* (c) per transport: results of the calls *)
+Theorem C05_tr_call_results :
+  forall t s g k,
+  Tcp.VariantTheorems.treachU t s g -> Tcp.Model.call_ok (Tcp.Variants.ev_of t k) g (snd (Tcp.Variants.tstep t s k)) = true.
+Proof. exact Tcp.VariantTheorems.t_call_results. Qed.
+Print Assumptions C05_tr_call_results.
+
+(* (c) per transport: negotiate(c) succeeds after ConnectionOpened c, with or without cancel(c) in between *)
+Theorem C05_tr_negotiate_after_opened :
+  forall t s g k c,
+  Tcp.VariantTheorems.treachU t s g -> In (Tcp.Model.OEv (Tcp.Model.TOpened c)) (snd (Tcp.Variants.tstep t s k)) ->
+  let s1 := fst (Tcp.Variants.tstep t s k) in
+  snd (Tcp.Variants.tstep t s1 (Tcp.Variants.XEv (Tcp.Model.ENegotiate c))) = [Tcp.Model.ORet true] /\
+  snd (Tcp.Variants.tstep t (fst (Tcp.Variants.tstep t s1 (Tcp.Variants.XEv (Tcp.Model.ECancel c)))) (Tcp.Variants.XEv (Tcp.Model.ENegotiate c))) = [Tcp.Model.ORet true].
+Proof. exact Tcp.VariantTheorems.t_negotiate_after_opened. Qed.
+Print Assumptions C05_tr_negotiate_after_opened.
+
+(* (b) (e) per transport: the whole transport contract, for an owner that draws its ids *)
+Theorem C05_tr_contract :
+  forall t s g k o1 e o2,
+  Tcp.VariantTheorems.treach t s g -> Tcp.Model.caller_ok g (Tcp.Variants.ev_of t k) = true -> snd (Tcp.Variants.tstep t s k) = o1 ++ Tcp.Model.OEv e :: o2 ->
+  Tcp.Model.tfeas (fold_left Tcp.Model.gout o1 (Tcp.Model.gcall (Tcp.Variants.ev_of t k) (snd (Tcp.Variants.tstep t s k)) g)) e = true.
+Proof. exact Tcp.VariantTheorems.t_contract. Qed.
+Print Assumptions C05_tr_contract.
+
+(* identity, per transport *)
+Theorem C05_tr_established_names_dialled_peer :
+  forall t s g k o1 c q o2,
+  Tcp.VariantTheorems.treach t s g -> Tcp.Model.caller_ok g (Tcp.Variants.ev_of t k) = true ->
+  snd (Tcp.Variants.tstep t s k) = o1 ++ Tcp.Model.OEv (Tcp.Model.TEstablished c q false) :: o2 ->
+  let g' := fold_left Tcp.Model.gout o1 (Tcp.Model.gcall (Tcp.Variants.ev_of t k) (snd (Tcp.Variants.tstep t s k)) g) in
+  In c (Tcp.Model.g_neg g') /\
+  exists es, Tcp.Model.lookup c (Tcp.Model.g_att g') = Some es /\ (exists x, In x es /\ Tcp.Model.matches x q = true) /\
+             forall p, (forall x, In x es -> x = Some p) -> q = p.
+Proof. exact Tcp.VariantTheorems.t_established_names_dialled_peer. Qed.
+Print Assumptions C05_tr_established_names_dialled_peer.
+
+(* WebSocket and QUIC always expect a definite peer: an outbound ConnectionEstablished reports a peer that an address of that id names literally *)
+Theorem C05_tr_strict_established_is_named_peer :
+  forall t s g k o1 c q o2,
+  Tcp.VariantTheorems.strict t = true ->
+  Tcp.VariantTheorems.treach t s g -> Tcp.Variants.call_plain t k = true -> Tcp.Model.caller_ok g (Tcp.Variants.ev_of t k) = true ->
+  snd (Tcp.Variants.tstep t s k) = o1 ++ Tcp.Model.OEv (Tcp.Model.TEstablished c q false) :: o2 ->
+  exists es, Tcp.Model.lookup c (Tcp.Model.g_att (Tcp.Model.gstep (Tcp.Variants.ev_of t k) (snd (Tcp.Variants.tstep t s k)) g)) = Some es /\ In (Some q) es.
+Proof. exact Tcp.VariantTheorems.strict_established_is_named_peer. Qed.
+Print Assumptions C05_tr_strict_established_is_named_peer.
+
+(* (d) per transport: the silent branches of poll_next are unreachable *)
+Theorem C05_tr_no_dropped_answer :
+  forall t s g k m,
+  Tcp.VariantTheorems.treach t s g -> Tcp.Model.caller_ok g (Tcp.Variants.ev_of t k) = true -> In (Tcp.Model.OMark m) (snd (Tcp.Variants.tstep t s k)) ->
+  exists c, m = Tcp.Model.MSilentFailure c Tcp.Model.KInb.
+Proof. exact Tcp.VariantTheorems.t_no_dropped_answer. Qed.
+Print Assumptions C05_tr_no_dropped_answer.
+
+(* (d) per transport: what is owed is backed by a pending, un-cancelled future *)
+Theorem C05_tr_owed_is_pending :
+  forall t s g c,
+  Tcp.VariantTheorems.treach t s g ->
+  (In c (Tcp.Model.g_open g) -> exists f rem, Tcp.Model.lookup f (Tcp.Model.praw s) = Some c /\ Tcp.Model.lookup f (Tcp.Model.attempts s) = Some rem /\
+                                    ~ In f (Tcp.Model.aborted s)) /\
+  (In c (Tcp.Model.g_neg g) -> exists f k, Tcp.Model.lookup f (Tcp.Model.pconn s) = Some (c, k) /\ Tcp.Model.is_inb k = false).
+Proof. exact Tcp.VariantTheorems.t_owed_is_pending. Qed.
+Print Assumptions C05_tr_owed_is_pending.
+
+(* progress, per transport *)
+Theorem C05_tr_progress_open_answer :
+  forall t s g f c rem i e q,
+  Tcp.VariantTheorems.treach t s g -> Tcp.Model.lookup f (Tcp.Model.praw s) = Some c -> In c (Tcp.Model.g_open g) ->
+  Tcp.Model.lookup f (Tcp.Model.attempts s) = Some rem -> Tcp.Model.lookup i rem = Some e -> Tcp.Model.matches e q = true ->
+  In (Tcp.Model.OEv (Tcp.Model.TOpened c)) (snd (Tcp.Variants.tstep t s (Tcp.Variants.XEv (Tcp.Model.EAns f i (Some q))))).
+Proof. exact Tcp.VariantTheorems.t_progress_open_answer. Qed.
+Print Assumptions C05_tr_progress_open_answer.
+
+(* progress, per transport *)
+Theorem C05_tr_progress_open_last_failure :
+  forall t s g f c rem i e ans,
+  Tcp.VariantTheorems.treach t s g -> Tcp.Model.lookup f (Tcp.Model.praw s) = Some c -> In c (Tcp.Model.g_open g) ->
+  Tcp.Model.lookup f (Tcp.Model.attempts s) = Some rem -> Tcp.Model.lookup i rem = Some e -> Tcp.Model.delk i rem = [] ->
+  (forall q, ans = Some q -> Tcp.Model.matches e q = false) ->
+  In (Tcp.Model.OEv (Tcp.Model.TOpenFailure c)) (snd (Tcp.Variants.tstep t s (Tcp.Variants.XEv (Tcp.Model.EAns f i ans)))).
+Proof. exact Tcp.VariantTheorems.t_progress_open_last_failure. Qed.
+Print Assumptions C05_tr_progress_open_last_failure.
+
+(* progress: the overall deadline of an open (TCP and WebSocket; QUIC has none: its histories contain no EExpire) *)
+Theorem C05_tr_progress_open_expire :
+  forall t s g f c rem,
+  Tcp.Variants.has_deadline t = true ->
+  Tcp.VariantTheorems.treach t s g -> Tcp.Model.lookup f (Tcp.Model.praw s) = Some c -> In c (Tcp.Model.g_open g) ->
+  Tcp.Model.lookup f (Tcp.Model.attempts s) = Some rem -> rem <> [] ->
+  In (Tcp.Model.OEv (Tcp.Model.TOpenFailure c)) (snd (Tcp.Variants.tstep t s (Tcp.Variants.XEv (Tcp.Model.EExpire f)))).
+Proof. exact Tcp.VariantTheorems.t_progress_open_expire. Qed.
+Print Assumptions C05_tr_progress_open_expire.
+
+(* progress: no address left, also an open none of whose addresses parses for this transport *)
+Theorem C05_tr_progress_open_no_address :
+  forall t s g f c e,
+  Tcp.VariantTheorems.treach t s g -> Tcp.Model.lookup f (Tcp.Model.praw s) = Some c -> In c (Tcp.Model.g_open g) -> Tcp.Model.lookup f (Tcp.Model.attempts s) = Some [] ->
+  Tcp.Model.polls e = true -> In (Tcp.Model.OEv (Tcp.Model.TOpenFailure c)) (snd (Tcp.Variants.tstep t s (Tcp.Variants.XEv e))).
+Proof. exact Tcp.VariantTheorems.t_progress_open_no_address. Qed.
+Print Assumptions C05_tr_progress_open_no_address.
+
+(* progress, per transport *)
+Theorem C05_tr_progress_dial :
+  forall t s g f c i ans,
+  Tcp.VariantTheorems.treach t s g -> Tcp.Model.lookup f (Tcp.Model.pconn s) = Some (c, Tcp.Model.KDial) ->
+  exists x, Tcp.Model.lookup c (Tcp.Model.g_att g) = Some [x] /\
+    In (Tcp.Model.OEv (match ans with
+             | Some q => if Tcp.Model.matches x q then Tcp.Model.TEstablished c q false else Tcp.Model.TDialFailure c
+             | None => Tcp.Model.TDialFailure c
+             end)) (snd (Tcp.Variants.tstep t s (Tcp.Variants.XEv (Tcp.Model.EAns f i ans)))).
+Proof. exact Tcp.VariantTheorems.t_progress_dial. Qed.
+Print Assumptions C05_tr_progress_dial.
+
+(* progress, per transport *)
+Theorem C05_tr_progress_negotiate :
+  forall t s g f c e,
+  Tcp.VariantTheorems.treach t s g -> Tcp.Model.lookup f (Tcp.Model.pconn s) = Some (c, Tcp.Model.KNeg) -> Tcp.Model.polls e = true ->
+  exists q, In (Tcp.Model.OEv (Tcp.Model.TEstablished c q false)) (snd (Tcp.Variants.tstep t s (Tcp.Variants.XEv e))).
+Proof. exact Tcp.VariantTheorems.t_progress_negotiate. Qed.
+Print Assumptions C05_tr_progress_negotiate.
+
+(* progress, per transport *)
+Theorem C05_tr_progress_inbound :
+  forall t s g f c i q,
+  Tcp.VariantTheorems.treach t s g -> Tcp.Model.lookup f (Tcp.Model.pconn s) = Some (c, Tcp.Model.KInb) ->
+  In (Tcp.Model.OEv (Tcp.Model.TEstablished c q true)) (snd (Tcp.Variants.tstep t s (Tcp.Variants.XEv (Tcp.Model.EAns f i (Some q))))).
+Proof. exact Tcp.VariantTheorems.t_progress_inbound. Qed.
+Print Assumptions C05_tr_progress_inbound.
+
+(* (e) per transport *)
+Theorem C05_tr_outbound_ids_from_owner :
+  forall t s g c,
+  Tcp.VariantTheorems.treachU t s g -> In c (Tcp.Model.g_open g) \/ In c (Tcp.Model.g_neg g) \/ In c (Tcp.Model.g_opened g) -> In c (Tcp.Model.g_used g).
+Proof. exact Tcp.VariantTheorems.t_outbound_ids_from_owner. Qed.
+Print Assumptions C05_tr_outbound_ids_from_owner.
+
+(* `opened` / `opened_raw` holds exactly the connections announced by ConnectionOpened and not negotiated since *)
+Theorem C05_tr_opened_is_unnegotiated :
+  forall t s g c,
+  Tcp.VariantTheorems.treachU t s g -> (In c (Tcp.Model.opened s) <-> In c (Tcp.Model.g_opened g)).
+Proof. exact Tcp.VariantTheorems.t_opened_is_unnegotiated. Qed.
+Print Assumptions C05_tr_opened_is_unnegotiated.
+
+(* ... and the only call that removes an id from it is negotiate of that id (an owner that never negotiates keeps the socket in the map for good) *)
+Theorem C05_tr_opened_leaves_by_negotiate :
+  forall e os g c,
+  In c (Tcp.Model.g_opened g) -> ~ In c (Tcp.Model.g_opened (Tcp.Model.gstep e os g)) -> e = Tcp.Model.ENegotiate c.
+Proof. exact Tcp.VariantTheorems.opened_leaves_by_negotiate. Qed.
+Print Assumptions C05_tr_opened_leaves_by_negotiate.
+
+(* exactly one outcome, bookkeeping model: over a whole history an id is answered by at most one of ConnectionOpened / OpenFailure and by at most one of outbound ConnectionEstablished / DialFailure *)
+Theorem C05_tcp_answers_at_most_once :
+  forall s g h c,
+  Tcp.Once.reachH s g h -> (Tcp.Once.cnt (Tcp.Once.open_ans c) h <= 1)%nat /\ (Tcp.Once.cnt (Tcp.Once.neg_ans c) h <= 1)%nat.
+Proof. exact Tcp.Once.tcp_answers_at_most_once. Qed.
+Print Assumptions C05_tcp_answers_at_most_once.
+
+(* ... what is still owed has not been answered, and an id is in one phase at a time *)
+Theorem C05_tcp_owed_not_answered :
+  forall s g h c,
+  Tcp.Once.reachH s g h ->
+  (In c (Tcp.Model.g_open g) -> Tcp.Once.cnt (Tcp.Once.open_ans c) h = 0%nat /\ Tcp.Once.cnt (Tcp.Once.neg_ans c) h = 0%nat /\ ~ In c (Tcp.Model.g_neg g) /\ ~ In c (Tcp.Model.g_opened g)) /\
+  (In c (Tcp.Model.g_neg g) -> Tcp.Once.cnt (Tcp.Once.neg_ans c) h = 0%nat /\ ~ In c (Tcp.Model.g_open g) /\ ~ In c (Tcp.Model.g_opened g)).
+Proof. exact Tcp.Once.tcp_owed_not_answered. Qed.
+Print Assumptions C05_tcp_owed_not_answered.
+
+(* ... nothing is ever answered for an id the owner did not pass to dial / open *)
+Theorem C05_tcp_no_answer_without_call :
+  forall s g h c,
+  Tcp.Once.reachH s g h -> ~ In c (Tcp.Model.g_used g) -> Tcp.Once.cnt (Tcp.Once.open_ans c) h = 0%nat /\ Tcp.Once.cnt (Tcp.Once.neg_ans c) h = 0%nat.
+Proof. exact Tcp.Once.tcp_no_answer_without_call. Qed.
+Print Assumptions C05_tcp_no_answer_without_call.
+
+(* exactly one outcome, per transport *)
+Theorem C05_tr_answers_at_most_once :
+  forall t s g h c,
+  Tcp.Once.treachH t s g h -> (Tcp.Once.cnt (Tcp.Once.open_ans c) h <= 1)%nat /\ (Tcp.Once.cnt (Tcp.Once.neg_ans c) h <= 1)%nat.
+Proof. exact Tcp.Once.t_answers_at_most_once. Qed.
+Print Assumptions C05_tr_answers_at_most_once.
+
+(* ... per transport *)
+Theorem C05_tr_owed_not_answered :
+  forall t s g h c,
+  Tcp.Once.treachH t s g h ->
+  (In c (Tcp.Model.g_open g) -> Tcp.Once.cnt (Tcp.Once.open_ans c) h = 0%nat /\ Tcp.Once.cnt (Tcp.Once.neg_ans c) h = 0%nat /\ ~ In c (Tcp.Model.g_neg g) /\ ~ In c (Tcp.Model.g_opened g)) /\
+  (In c (Tcp.Model.g_neg g) -> Tcp.Once.cnt (Tcp.Once.neg_ans c) h = 0%nat /\ ~ In c (Tcp.Model.g_open g) /\ ~ In c (Tcp.Model.g_opened g)).
+Proof. exact Tcp.Once.t_owed_not_answered. Qed.
+Print Assumptions C05_tr_owed_not_answered.
+
+(* ... per transport *)
+Theorem C05_tr_no_answer_without_call :
+  forall t s g h c,
+  Tcp.Once.treachH t s g h -> ~ In c (Tcp.Model.g_used g) -> Tcp.Once.cnt (Tcp.Once.open_ans c) h = 0%nat /\ Tcp.Once.cnt (Tcp.Once.neg_ans c) h = 0%nat.
+Proof. exact Tcp.Once.t_no_answer_without_call. Qed.
+Print Assumptions C05_tr_no_answer_without_call.
+
+
+(* non-vacuity, WebSocket: dial refuses an address without /p2p and a TCP address; of three addresses
+   of an open only the WebSocket one is an attempt, answered by the wrong identity: OpenFailure; a
+   second open answered by the named peer: ConnectionOpened, cancel + negotiate, ConnectionEstablished *)
+Example C05_ws_history :
+  Tcp.Once.tcallers_ok V.C10.Model.TWs Tcp.Model.init Tcp.Model.g0 Tcp.Once.ws_history = true /\
+  snd (Tcp.Once.trun V.C10.Model.TWs Tcp.Model.init Tcp.Once.ws_history) =
+  [[Tcp.Model.OId 0]; [Tcp.Model.ORet false]; [Tcp.Model.ORet false]; [Tcp.Model.ORet true];
+   [Tcp.Model.OEv (Tcp.Model.TOpenFailure 0)]; [Tcp.Model.OId 1]; [Tcp.Model.ORet true];
+   [Tcp.Model.OEv (Tcp.Model.TOpened 1)]; []; [Tcp.Model.ORet true];
+   [Tcp.Model.OEv (Tcp.Model.TEstablished 1 1 false)]].
+Proof. exact Tcp.Once.ws_history_ok. Qed.
+
+(* non-vacuity, QUIC: dial refuses an address without /p2p; a dial answered by the named peer; an open
+   none of whose addresses is a QUIC address with /p2p fails at the next poll *)
+Example C05_quic_history :
+  Tcp.Once.tcallers_ok V.C10.Model.TQuic Tcp.Model.init Tcp.Model.g0 Tcp.Once.quic_history = true /\
+  snd (Tcp.Once.trun V.C10.Model.TQuic Tcp.Model.init Tcp.Once.quic_history) =
+  [[Tcp.Model.OId 0]; [Tcp.Model.ORet false]; [Tcp.Model.ORet true];
+   [Tcp.Model.OEv (Tcp.Model.TEstablished 0 1 false)]; [Tcp.Model.OId 1]; [Tcp.Model.ORet true];
+   [Tcp.Model.OEv (Tcp.Model.TOpenFailure 1)]].
+Proof. exact Tcp.Once.quic_history_ok. Qed.
